@@ -563,6 +563,9 @@ def vr_str(nd):
 class VROOMAd(Adapter):
     name = "VROOM"
 
+    def fix_T(self, p, T):
+        return min(T, 150)        # every pull walks down to the depth cap: trees grow by h_max cells per round
+
     def constrain(self, rnd, kind, K, d):
         # VROOM deepens the whole tree to floor(log2 n): only binary-child partitions are in the
         # property's quantifier; a few ternary ones are kept (tiny n) for the recorded crash
@@ -576,6 +579,7 @@ class VROOMAd(Adapter):
         return kind, K, d
 
     def gen_params(self, rnd, T):
+        T = min(T, 150)
         n = rnd.choice([T, T, 2 * T, 100, 64, 128, 20, 33])
         return {"n": n, "h_max": rnd.choice([3, 5, 8, 8, 12, 16, 25, 1000 if n <= 33 else 10]), "b": rnd.choice([1.0, 0.5, 2.0]),
                 "f_max": rnd.choice([1.0, 2.0, 10.0])}
@@ -713,7 +717,11 @@ def gen_algo_case(seed, idx, algo=None, force=None, monitors_on=True, T=None, ho
     box, bmode = gen_box(rnd, d, force.get("bmode"))
     if force.get("box") is not None:
         box = [list(iv) for iv in force["box"]]
-    T = T or force.get("T") or rnd.choice([20, 40, 60, 100, 150])
+    if os.environ.get("PYXAB_VERIF_TIER") == "thorough":
+        tchoices = [60, 100, 150, 300, 600] + ([1100, 2100] if ad.name in ("HCT", "VHCT", "POO") and rnd.random() < 0.15 else [])
+    else:
+        tchoices = [20, 40, 60, 100, 150]
+    T = T or force.get("T") or rnd.choice(tchoices)
     rmode = force.get("rmode") or rnd.choice(REWARD_MODES)
     qmode = force.get("qmode") or rnd.choice(["mixed", "dyadic", "random", "end", "half"])
     params = force.get("params") or ad.gen_params(rnd, T)
